@@ -9,6 +9,7 @@ mod c17_json;
 #[cfg(not(verif_nohooks))]
 mod c18_vpl;
 mod c16;
+mod c19;
 mod c20_cache;
 mod indep;
 #[cfg(not(verif_nohooks))]
@@ -19,6 +20,7 @@ mod pmcorr {
 	use crate::{indep, util::*};
 	pub fn find_line(_: &mut Collector, _: &[indep::Entry], _: u64) {}
 	pub fn lines(_: &mut Collector, _: &mut Rng, _: &[(u8, u32, u32)], _: bool) {}
+	pub fn malformed_lines(_: &mut Collector, _: &mut Rng, _: usize) {}
 }
 mod crash;
 mod c15_bbox;
@@ -60,13 +62,15 @@ fn main() {
 	}
 	std::fs::create_dir_all(&ctx.out).expect("create out dir");
 	// silence panic messages from catch_unwind'ed probes
-	std::panic::set_hook(Box::new(|_| {}));
+	std::panic::set_hook(Box::new(|info| { if let Some(l) = info.location() { *util::LAST_PANIC_LOC.lock().unwrap() = format!("{}:{}", l.file().trim_start_matches("/repo/"), l.line()); } }));
 	let res = match cmd.as_str() {
 		"c20" => c20_cache::run(&ctx),
 		"c15" => c15_bbox::run(&ctx),
 		"c14" => c14_stream::run(&ctx),
 		"c17" => c17_json::run(&ctx),
 		"c16" => c16::run(&ctx),
+		"c19" => c19::run(&ctx),
+		"c19child" => { let r = ctx.replay.clone().unwrap_or_default(); let p: Vec<&str> = r.split_whitespace().collect(); c19::child(p[0], ctx.seed, p[1].parse().unwrap(), p[2].parse().unwrap(), &ctx.out) }
 		"c12" => crash::run(&ctx),
 		"c10" | "c11" | "mvt" => mvt::run(&ctx, &cmd),
 		#[cfg(not(verif_nohooks))]
